@@ -8,6 +8,8 @@ use std::sync::atomic::{AtomicBool, AtomicI64, AtomicU64, Ordering};
 pub static SIM_CLOCK_ON: AtomicBool = AtomicBool::new(false);
 pub static SIM_CLOCK_SECS: AtomicI64 = AtomicI64::new(0);
 pub static CLOCK_READS: AtomicU64 = AtomicU64::new(0);
+/// simulated monotonic clock (nanoseconds since an arbitrary origin); only ever moved forwards by the harness
+pub static SIM_MONO_NANOS: AtomicU64 = AtomicU64::new(1_000_000_000);
 pub static SIM_ENTROPY_ON: AtomicBool = AtomicBool::new(false);
 pub static ENTROPY_READS: AtomicU64 = AtomicU64::new(0);
 
@@ -22,6 +24,14 @@ pub unsafe extern "C" fn clock_gettime(clk: libc::clockid_t, ts: *mut libc::time
         CLOCK_READS.fetch_add(1, Ordering::SeqCst);
         (*ts).tv_sec = SIM_CLOCK_SECS.load(Ordering::SeqCst) as libc::time_t;
         (*ts).tv_nsec = 0;
+        return 0;
+    }
+    // the monotonic family (Instant::now): simulated too, so that no deadline in the code under test reads real time
+    if matches!(clk, libc::CLOCK_MONOTONIC | libc::CLOCK_MONOTONIC_RAW | libc::CLOCK_MONOTONIC_COARSE | libc::CLOCK_BOOTTIME) && SIM_CLOCK_ON.load(Ordering::SeqCst) {
+        CLOCK_READS.fetch_add(1, Ordering::SeqCst);
+        let n = SIM_MONO_NANOS.load(Ordering::SeqCst);
+        (*ts).tv_sec = (n / 1_000_000_000) as libc::time_t;
+        (*ts).tv_nsec = (n % 1_000_000_000) as libc::c_long;
         return 0;
     }
     let r = libc::syscall(libc::SYS_clock_gettime, clk as libc::c_long, ts);
